@@ -29,7 +29,7 @@ structure Start (s : IState) : Prop where
 
 theorem Start.rel {s : IState} (h : Start s) : Rel 0 false false 0 s s :=
   { code := rfl, origLen := rfl, jt := rfl, isEof := rfl, isEofInit := rfl, spec := rfl, env := rfl, input := rfl,
-    ck := rfl, cks := rfl, stack := h.stack, memWF := h.memWF, memCk := h.memCk, memL := Nat.zero_le _,
+    ck := rfl, cks := rfl, stack := h.stack, memWF := h.memWF, memCk := h.memCk, memL := Nat.zero_le _, grow := Nat.le_refl _,
     rdLen := h.rdLen, inLen := h.inLen, m0 := h.meas, meas := Nat.le_of_eq (Nat.add_zero _),
     strict := fun e => (by cases e), safe := h.safe, nonempty := fun e => (by cases e), pc := rfl }
 
